@@ -22,6 +22,10 @@ def M(id_, file, old, new, props):
 
 
 MUTANTS = [
+    M('networks-aliased-on-read', NN, "        emulator.neural_networks = []\n",
+      "        emulator.neural_networks = []\n        spare = [MLPRegressor()] * 2\n", 'C09'),
+    M('free-branch-on-ppf', PR, "            if hasattr(dist, 'isf'):\n                phys_points[..., i] = dist.isf(1 - points[..., i])",
+      "            if hasattr(dist, 'ppf'):\n                phys_points[..., i] = dist.ppf(points[..., i])", 'C15'),
     M('setter-does-not-store', S, "        self._discard_exploration = discard_exploration\n",
       "        pass\n", 'C12'),
     M('proposals-not-counted', S, "        self.shell_n_sample[shell] += n_bound\n", "", 'C02'),
